@@ -522,8 +522,17 @@ impl<'a, T> ChordsV2<'a, T> {
 
         // Clear presses from the queue if they were consumed by a chord.
         if self.active_chords.len() > prev_active_chords_len {
+            // Only the first press of each consumed key: a later press of the same key that is
+            // already queued (released and pressed again within the same tick) is a new input.
+            let mut consumed = accumulated_presses.clone();
             self.queue.retain(|qd| match qd.event {
-                Event::Press(_, j) => !accumulated_presses.contains(&j),
+                Event::Press(_, j) => match consumed.iter().position(|k| *k == j) {
+                    Some(i) => {
+                        consumed.swap_remove(i);
+                        false
+                    }
+                    None => true,
+                },
                 _ => true,
             });
         }
